@@ -1559,10 +1559,17 @@ def r01_12(duke, R, S):
             return "?symbolic"
         return "ok"
     classes = {}
+    # label-creating methods: those that insert into the map, directly or through another method of the impl (a merged bounded helper)
+    creating = set(n for n, b in lab.items() if any(H.is_call(x, "get_or_add_unchecked", "or_insert_with", "entry") for x in H.walk(b["body"])))
+    for _ in range(4):
+        for n, b in lab.items():
+            if n not in creating and any(x.get("k") in ("mcall", "call") and (H.callee_name(x) or "") in creating
+                                         and (x.get("callee") or {}).get("key") in inline for x in H.walk(b["body"])):
+                creating.add(n)
     for name, b in sorted(lab.items()):
         if len(b["params"]) != 2 or (b.get("inputs") or [None, None])[1] != "u16":
             continue
-        if not any(H.is_call(x, "get_or_add_unchecked", "or_insert_with", "entry") for x in H.walk(b["body"])) and name not in ("create",):
+        if name not in creating and name not in ("create",):
             # only label-creating methods are classified (get / try_get look up existing labels)
             continue
         pat = [outcome(b, [("i", CL + d)]) for d in (-1, 0, 1)]
